@@ -88,9 +88,11 @@ pub fn eval(case: &str) -> Out {
         }
         return Out { result: "json".into(), pred_fail: fail };
     }
-    if w.len() != 5 { return Out::ok("harnesserr args".into()); }
+    if w.len() != 5 && !(w.len() == 6 && w[1] == "mem") { return Out::ok("harnesserr args".into()); }
     let b = match unhex(w[4]) { Some(b) => b, None => return Out::ok("harnesserr hex".into()) };
-    let i = match deserialize::<TxIn>(&b) { Ok(i) => i, Err(_) => return Out::ok("err".into()) };
+    let mut i = match deserialize::<TxIn>(&b) { Ok(i) => i, Err(_) => return Out::ok("err".into()) };
+    // `mem`: the plain index replaced in memory after decoding (an issuance on the all-ones index: no encoding carries it)
+    if w.len() == 6 { match w[5].parse::<u32>() { Ok(v) => i.previous_output.vout = v, Err(_) => return Out::ok("harnesserr vout".into()) } }
     let (a, t) = i.issuance_ids();
     let pin = elements::pset::Input::from_txin(i.clone());
     let (pa, pt) = pin.issuance_ids();
@@ -190,6 +192,16 @@ pub fn gen(rng: &mut ChaCha20Rng, n: usize, thorough: bool) -> Vec<Case> {
         if k % 7 == 0 { i.previous_output.vout = pk!(rng, [0u32, 0x3fff_fffe, 1 << 29]); }
         let nt = i.has_issuance();
         out.push(rename(c01::mk("txin", &serialize(&i), tags, nt)));
+    }
+    // in-memory inputs: an issuance (new or re-issuance, with and without the peg-in flag) whose plain index is the all-ones index, on a null and on a real txid.
+    // (The one other value no encoding carries — index 0x3fffffff with BOTH flags — is left out: its PSET index collides with the all-ones index by
+    // construction of the format, see DESIGN C11.)
+    for k in 0..(n / 12).max(6) {
+        let mut tags = vec!["mem:issuance-on-allones-index".to_string()];
+        let mut i = loop { let i = rtxin(rng, Feat { big: false, no_witness: true }, &mut tags); if i.has_issuance() && i.previous_output.vout < (1 << 30) - 1 { break i; } };
+        if k % 2 == 0 { i.previous_output.txid = elements::Txid::from_byte_array([0u8; 32]); tags.push("mem:null-txid".into()); }
+        let c = rename(c01::mk("txin", &serialize(&i), tags, true));
+        out.push(Case { text: format!("{} 4294967295", c.text.replacen("C11 txin ", "C11 mem ", 1)), ..c });
     }
     for _ in 0..(n / 4).max(4) {
         let j = rjson(rng, 2);
